@@ -75,6 +75,9 @@ type Hooks struct {
 	Scan func(session string, alpha bool, ancestor *core.Entry, full bool) (handled bool, snap *core.Snapshot, err error, tryAgain bool)
 	// Transition likewise.
 	Transition func(session string, alpha bool, transitions []*core.Change) (handled bool, results []*core.Entry, problems []*core.Problem, missing bool, err error)
+	// OnTransition, if non-nil, is called with the context the controller
+	// passes to Transition, before Transition is consulted.
+	OnTransition func(ctx context.Context, session string, alpha bool)
 	// Stage / Supply are skipped (reported as fully pre-staged) when
 	// Transition is scripted and this is true.
 	SkipStaging bool
@@ -164,6 +167,9 @@ func (e *journalingEndpoint) Supply(paths []string, signatures []*rsync.Signatur
 
 func (e *journalingEndpoint) Transition(ctx context.Context, transitions []*core.Change) ([]*core.Entry, []*core.Problem, bool, error) {
 	e.log("transition", "begin", nil, fmt.Sprint(len(transitions)))
+	if h := activeHooks.Load(); h != nil && h.OnTransition != nil {
+		h.OnTransition(ctx, e.session, e.alpha)
+	}
 	if h := activeHooks.Load(); h != nil && h.Transition != nil {
 		if handled, r, p, m, err := h.Transition(e.session, e.alpha, transitions); handled {
 			e.log("transition", "end", err, "scripted")
